@@ -73,11 +73,17 @@ pub fn cases(rng: &mut Rng, tier: &str) -> (Vec<Case>, bool) {
         let steps = rng.range(2, 12);
         let mut kinds = std::collections::BTreeSet::new();
         for _ in 0..steps {
-            let (text, arg) = match rng.below(6) {
+            let (text, arg) = match rng.below(12) {
                 0..=2 => ("PRINT RND(1)", 1.0),
                 3 => ("PRINT RND(0)", 0.0),
                 4 => ("PRINT RND(-1)", -1.0),
-                _ => ("PRINT RND(2.5)", 2.5),
+                5 => ("PRINT RND(2.5)", 2.5),
+                6 => ("PRINT RND(.5)", 0.5),
+                7 => ("PRINT RND(1/4)", 0.25),
+                8 => ("PRINT RND(0.001)", 0.001),
+                9 => ("PRINT RND(-.5)", -0.5),
+                10 => ("PRINT RND(1-1)", 0.0),
+                _ => ("PRINT RND(100000)", 100000.0),
             };
             ops.push(format!("start {}", hexs(text)));
             let (v, ns) = oracle_step(state, arg);
